@@ -33,6 +33,8 @@ def run(ck):
     limits_intact(ck, S, "C07-O8", "size")
     from rules.c09 import next_index, name_scheme
     next_index(ck, S, "C07-O4")
+    from rules.c09 import index_feeds_name
+    index_feeds_name(ck, S, "C07-O4")   # ... and that result, for the date of the name, is what the name gets (a refused rename leaves the active file growing)
     name_scheme(ck, S, "C07-O4")      # ... and the scan sees the names the writer produces
     # ... over a listing that leaves no rotated file out (anchored, escaped pattern; no wildcard name filter built from the file name)
     from rules.c06 import name_pattern
